@@ -33,6 +33,18 @@ func genC13(r *Rng, n int, tier string, emit func(Case)) {
 				doc = append(doc, nTag("section", false, nil, nTag("p", false, nil, nText("x")), nBuf(eId("nickname"), false)), nBuf(eId("nickname"), false))
 				c["doc"] = doc
 			}
+			if rr := r.Fork(); rr.Chance(1, 10) {
+				// what surrounds the templates is the same in both modes too: an asset manifest in the base directory and the module's
+				// asset() function (rewritten and not rewritten names, in an attribute and as text)
+				doc := asList(c["doc"])
+				names := []string{"app.js", "css/main.css", "img/logo.png", "js/app.js"}
+				a, b := names[rr.Intn(4)], names[rr.Intn(4)]
+				doc = append(doc, nTag("footer", false, nil,
+					nTag("script", false, []interface{}{nAttr("src", eCall(eId("asset"), eStr(a)), true)}),
+					nTag("p", false, nil, nBuf(eCall(eId("asset"), eStr(b)), true))))
+				c["doc"] = doc
+				c["manifest"] = `{"app.js":"app.3f9a1c.js","css/main.css":"css/main.77e0b2.css"}`
+			}
 			emit(c)
 		})
 	}
